@@ -21,8 +21,8 @@ def _cond(s, cond):
     return out
 
 
-def replay_rqs(rqs, seed, frontend="wsgi", prefix="/", backend="tree"):
-    s = DavSession(frontend=frontend, prefix=prefix, backend=backend)
+def replay_rqs(rqs, seed, frontend="wsgi", prefix="/", backend="tree", principal="/user/"):
+    s = DavSession(frontend=frontend, prefix=prefix, backend=backend, principal=principal)
     try:
         if backend == "tree":
             # SimSt of DavMC: the usual collections exist
